@@ -676,8 +676,14 @@ impl Read for ClientReader {
         Ok(n)
     }
 }
+/// engines at sync granularity: a client's write (made while it holds the connection's lock) is a scheduling point
+pub static CLIENT_WRITE_YIELDS: std::sync::atomic::AtomicBool = std::sync::atomic::AtomicBool::new(false);
+
 impl Write for ClientWriter {
     fn write(&mut self, b: &[u8]) -> io::Result<usize> {
+        if CLIENT_WRITE_YIELDS.load(std::sync::atomic::Ordering::SeqCst) {
+            self.sched.yield_op(Op::Custom("client-write".into()));
+        }
         let mut st = self.sched.lock();
         st.pipes[self.id].to_server.extend(b.iter().copied());
         Ok(b.len())
@@ -1123,10 +1129,12 @@ pub fn unscheduled<R>(f: impl FnOnce() -> R) -> R {
 
 /// Drop-in `RwLock` / `Mutex` for code under test whose `std::sync` imports are redirected here (the loom
 /// convention): every acquisition is a scheduling point that is enabled only while it would not block, so the
-/// explorer sees every order in which threads can enter the critical sections. Releases are not scheduling
-/// points (the state between a release and the thread's next visible operation is not observable to others
-/// as long as shared data is only touched under these locks). Without an installed scheduler, and on threads
-/// marked `unscheduled`, they are plain std locks.
+/// explorer sees every order in which threads can enter the critical sections. A try-acquisition is an always
+/// enabled scheduling point whose answer depends on the lock's state. Releases are scheduling points only when
+/// `RELEASE_YIELDS` is set: with blocking acquisitions alone, preempting a thread inside a critical section is
+/// indistinguishable from preempting it before its next visible operation; a try-acquisition of another thread can
+/// however *observe* the held lock, so engines whose subject may use them (C07, C19) turn release points on.
+/// Without an installed scheduler, and on threads marked `unscheduled`, they are plain std locks.
 pub mod sync {
     use super::*;
     use std::sync::{LockResult, PoisonError, TryLockError, TryLockResult};
@@ -1192,9 +1200,17 @@ pub mod sync {
         write: bool,
     }
 
+    /// engines that explore try-acquisitions (which can *observe* a held lock) set this: the release of a scheduled lock
+    /// is then a scheduling point too, i.e. a thread can be preempted while it still holds the lock even when its
+    /// critical section contains no other visible operation
+    pub static RELEASE_YIELDS: std::sync::atomic::AtomicBool = std::sync::atomic::AtomicBool::new(false);
+
     impl Drop for Release {
         fn drop(&mut self) {
             if let Some((s, id)) = self.held.take() {
+                if RELEASE_YIELDS.load(std::sync::atomic::Ordering::SeqCst) && !UNSCHEDULED.with(|c| c.get()) && !std::thread::panicking() {
+                    s.yield_op(Op::Custom(format!("unlock {}", id)));
+                }
                 let mut st = s.lock();
                 if let Some(e) = st.locks.get_mut(&id) {
                     if self.write {
@@ -1227,14 +1243,15 @@ pub mod sync {
         inner: std::sync::RwLock<T>,
     }
 
-    // field order: the std guard is released before the scheduler's book-keeping is updated
+    // field order: the scheduler's book-keeping (and, if enabled, the scheduling point "about to unlock") comes first,
+    // then the std guard is released; no scheduling point lies between the two
     pub struct RwLockReadGuard<'a, T: ?Sized> {
-        g: std::sync::RwLockReadGuard<'a, T>,
         _r: Release,
+        g: std::sync::RwLockReadGuard<'a, T>,
     }
     pub struct RwLockWriteGuard<'a, T: ?Sized> {
-        g: std::sync::RwLockWriteGuard<'a, T>,
         _r: Release,
+        g: std::sync::RwLockWriteGuard<'a, T>,
     }
 
     impl<T> RwLock<T> {
@@ -1310,8 +1327,8 @@ pub mod sync {
         inner: std::sync::Mutex<T>,
     }
     pub struct MutexGuard<'a, T: ?Sized> {
-        g: std::sync::MutexGuard<'a, T>,
         _r: Release,
+        g: std::sync::MutexGuard<'a, T>,
     }
     impl<T> Mutex<T> {
         pub const fn new(t: T) -> Mutex<T> {
